@@ -163,12 +163,6 @@ theorem spec_prefix (A B : List Call) (hB : TopLevel B) : ∃ extra, (spec (A ++
 
 /-! ### where rows come from, and which rows must be there -/
 
-/-- the record a call binds -/
-def rowOf (c : Call) : Option Row :=
-  match callExec c with
-  | some (t, _) => some ⟨t, c.key, c.val⟩
-  | none => none
-
 theorem rowOf_shape {c : Call} {t : Nat} {pol : Policy} {rest : List Prim} (h : c.ops = .exec t pol :: rest) :
     rowOf c = some ⟨t, c.key, c.val⟩ := by
   simp [rowOf, callExec, h]
@@ -563,5 +557,36 @@ theorem runCalls_deferred (C : CommitMethod) (hC : wfCommit C = true) (B : List 
 theorem runCalls_append (C : CommitMethod) (A B : List Call) (db : Db) :
     runCalls C (A ++ B) db = runCalls C B (runCalls C A db) := by
   simp [runCalls, List.foldl_append]
+
+/-! ### the executable `Causal` check is sound -/
+
+theorem specStep_fst_indep (rows : List Row) (a b : List Nat) (c : Call) :
+    (specStep (rows, a) c).1 = (specStep (rows, b) c).1 := by
+  have := specFrom_fst_indep [c] rows a b
+  simpa [specFrom] using this
+
+theorem causalCheckFrom_sound (dep : Nat → Nat → Option (Nat × Nat)) (rest : List Call) :
+    ∀ pre : List Call, causalCheckFrom dep (spec pre).1 rest = true →
+      ∀ i c, rest[i]? = some c → ∀ row, rowOf c = some row → ∀ d, dep row.table row.key = some d →
+        hasKey (spec (pre ++ rest.take i)).1 d.1 d.2 = true := by
+  induction rest with
+  | nil => intro pre _ i c hi; simp at hi
+  | cons c0 cs ih =>
+    intro pre h i c hi row hrow d hd
+    simp only [causalCheckFrom, Bool.and_eq_true] at h
+    obtain ⟨h0, hrest⟩ := h
+    cases i with
+    | zero =>
+      simp at hi; subst hi
+      rw [hrow] at h0
+      simp only [hd] at h0
+      simpa using h0
+    | succ i =>
+      have e : (specStep ((spec pre).1, []) c0).1 = (spec (pre ++ [c0])).1 := by
+        rw [spec_snoc]
+        exact specStep_fst_indep _ _ _ _
+      rw [e] at hrest
+      have := ih (pre ++ [c0]) hrest i c (by simpa using hi) row hrow d hd
+      simpa [List.append_assoc] using this
 
 end Ipv8.C19
